@@ -4,7 +4,7 @@ import seqfam, vlib, exprgen
 from exprgen import Gen, sql, col, num, strlit
 
 PIPE = os.path.join(vlib.VERIF, "spec", "pipe")
-ASSUME = ["bracket access map['key'] with keys containing spaces, colons and keywords, but no dots (a quoted key with a dot is not resolved by the engine: noted, outside the documented examples)", "single producer; synchronous sink (asynchronous sinks are explicitly unordered)", "the result channel is drained continuously and at most 40 rows are outstanding (capacity 100)",
+ASSUME = ["bracket access map['key'] with keys containing spaces, colons, keywords and dots", "single producer; synchronous sink (asynchronous sinks are explicitly unordered)", "the result channel is drained continuously and at most 40 rows are outstanding (capacity 100)",
           "WHERE predicates are drawn from the envelope in which the engine follows SQL semantics (C06 decides expressions; deviations are pinned there)",
           "default overflow strategy with a 1000-row input buffer, or the expand strategy with a ceiling above the row count: no input row is dropped at these volumes"]
 
